@@ -177,3 +177,11 @@ Qed.
 
 Lemma ipc_missing_buffer_is_error body n : fst (walk FPrim body {| nodes := [n]; bufs := [] |}) = CursorErr.
 Proof. reflexivity. Qed.
+
+Theorem buffer_guard_iff body off len : 0 <= body < 2^63 -> - 2^63 <= off < 2^63 -> - 2^63 <= len < 2^63 ->
+  (buffer_in_bounds body (off, len) = true <-> (0 <= off /\ 0 <= len /\ off + len <= body)).
+Proof.
+  intros Hb Ho Hl. split.
+  - apply buffer_guard_sound; assumption.
+  - intros [H1 [H2 H3]]. apply buffer_guard_complete; try assumption. apply Hb.
+Qed.
